@@ -1456,7 +1456,11 @@ class Authenticated(BaseClientHandler):
                     sorted(cmd.msg_set_as_set) if cmd.msg_set_as_set else []
                 )
                 async for idx, results in self.mbox.fetch(
-                    msg_set, cmd.fetch_atts, cmd.uid_command, cmd.timeout_cm
+                    msg_set,
+                    cmd.fetch_atts,
+                    cmd.uid_command,
+                    cmd.timeout_cm,
+                    read_only=self.examine,
                 ):
                     msg = b"* %(idx)d FETCH (%(results)b)\r\n" % {
                         b"idx": idx,
@@ -1522,6 +1526,12 @@ class Authenticated(BaseClientHandler):
                 raise No("There are pending EXPUNGEs.")
         else:
             await self.send_pending_notifications()
+
+        # If we selected the mailbox via 'examine' then we can not make any
+        # changes to it.
+        #
+        if self.examine:
+            raise No("Mailbox is read-only")
 
         # We do not issue any messages to the client here. This is done
         # automatically when 'resync' is called because resync will examine
